@@ -1,0 +1,104 @@
+//go:build verif
+
+// Machine-checked contracts for package code39 (comment-only; read by /verif/govc).
+package code39
+
+// the 43 data characters and their check values (ISO/IEC 16388: 0-9 A-Z - . space $ / + %), -1 otherwise
+//@ define c39Val(c int) int = (48 <= c && c <= 57) ? (c - 48) : ((65 <= c && c <= 90) ? (c - 55) : ((c == 45) ? 36 : ((c == 46) ? 37 : ((c == 32) ? 38 : ((c == 36) ? 39 : ((c == 47) ? 40 : ((c == 43) ? 41 : ((c == 37) ? 42 : (0 - 1)))))))))
+//@ specdef c39Sum(a map[int]int, i int) int = (i <= 0) ? 0 : (c39Sum(a, i-1) + c39Val(a[i-1]))
+//@ define c39Data(s string) bool = forall k int :: 0 <= k && k < len(s) ==> c39Val(s[k]) >= 0
+
+// C07/C14: the modulo-43 check character of a text over the 43 data characters; "#" otherwise.
+// (The second loop searches the map in unspecified order: the result does not depend on it.)
+//@ func getChecksum
+//@   attr unreachable_returns 4
+//@   requires len(content) <= 40000000
+//@   ensures len(result) == 1
+//@   ensures c39Data(content) ==> c39Val(result[0]) == c39Sum(bytes(content), len(content)) % 43
+//@   ensures c39Data(content) ==> 0 <= c39Val(result[0]) && c39Val(result[0]) <= 42 && 0 <= c39Sum(bytes(content), len(content))
+//@   ensures c39Data(content) ==> result[0] < 128 && encodeTable[result[0]].value == c39Val(result[0])
+//@   ensures !c39Data(content) ==> result[0] == 35
+//@   loop 1 invariant 0 <= iterpos() && iterpos() <= len(content) && sum == c39Sum(bytes(content), iterpos()) && 0 <= sum && sum <= 42 * iterpos()
+//@   loop 1 invariant forall k int :: 0 <= k && k < iterpos() ==> c39Val(content[k]) >= 0
+//@   loop 2 invariant c39Data(content) && 0 <= sum && sum <= 42 && sum == c39Sum(bytes(content), len(content)) % 43
+//@   loop 2 invariant forall k int :: visited[k] ==> c39Val(k) != sum
+
+// ---- the symbol as ISO/IEC 16388 draws it: nine elements per character (bar first), three of them
+// wide (2 modules), 12 modules; generated from the standard's element table (independent of the
+// library's encodeTable); characters are separated by one narrow space
+//@ define c39Bit(c int, t int) bool = (t == 0) ? (c == 48 || c == 49 || c == 50 || c == 51 || c == 52 || c == 53 || c == 54 || c == 55 || c == 56 || c == 57 || c == 65 || c == 66 || c == 67 || c == 68 || c == 69 || c == 70 || c == 71 || c == 72 || c == 73 || c == 74 || c == 75 || c == 76 || c == 77 || c == 78 || c == 79 || c == 80 || c == 81 || c == 82 || c == 83 || c == 84 || c == 85 || c == 86 || c == 87 || c == 88 || c == 89 || c == 90 || c == 45 || c == 46 || c == 32 || c == 42 || c == 36 || c == 47 || c == 43 || c == 37) : ((t == 1) ? (c == 49 || c == 51 || c == 53 || c == 56 || c == 65 || c == 67 || c == 69 || c == 72 || c == 75 || c == 77 || c == 79 || c == 82 || c == 85 || c == 87 || c == 89 || c == 46) : ((t == 2) ? (c == 48 || c == 50 || c == 52 || c == 54 || c == 55 || c == 57 || c == 66 || c == 68 || c == 70 || c == 71 || c == 73 || c == 74 || c == 76 || c == 78 || c == 80 || c == 81 || c == 83 || c == 84 || c == 37) : ((t == 3) ? (c == 49 || c == 50 || c == 51 || c == 53 || c == 54 || c == 56 || c == 57 || c == 65 || c == 66 || c == 67 || c == 69 || c == 70 || c == 72 || c == 73 || c == 75 || c == 76 || c == 77 || c == 79 || c == 80 || c == 82 || c == 83 || c == 86 || c == 88 || c == 90 || c == 45 || c == 32 || c == 42 || c == 36 || c == 47 || c == 43) : ((t == 4) ? (c == 51 || c == 67 || c == 68 || c == 71 || c == 74 || c == 77 || c == 78 || c == 81 || c == 84 || c == 85 || c == 86 || c == 87 || c == 89 || c == 90 || c == 46 || c == 32) : ((t == 5) ? (c == 48 || c == 52 || c == 55 || c == 65 || c == 66 || c == 68 || c == 69 || c == 70 || c == 72 || c == 73 || c == 74 || c == 75 || c == 76 || c == 78 || c == 79 || c == 80 || c == 82 || c == 83 || c == 84 || c == 87 || c == 88 || c == 45 || c == 42 || c == 43 || c == 37) : ((t == 6) ? (c == 48 || c == 49 || c == 50 || c == 52 || c == 53 || c == 54 || c == 56 || c == 57 || c == 67 || c == 69 || c == 70 || c == 77 || c == 79 || c == 80 || c == 81 || c == 85 || c == 86 || c == 88 || c == 89 || c == 90 || c == 46 || c == 32 || c == 42 || c == 36 || c == 47) : ((t == 7) ? (c == 51 || c == 53 || c == 54 || c == 55 || c == 71 || c == 75 || c == 76 || c == 78 || c == 81 || c == 82 || c == 83 || c == 84 || c == 87 || c == 89 || c == 90 || c == 45) : ((t == 8) ? (c == 48 || c == 49 || c == 50 || c == 52 || c == 55 || c == 56 || c == 57 || c == 65 || c == 66 || c == 68 || c == 71 || c == 72 || c == 73 || c == 74 || c == 77 || c == 79 || c == 80 || c == 82 || c == 83 || c == 84 || c == 85 || c == 86 || c == 88 || c == 45 || c == 46 || c == 32 || c == 42 || c == 47 || c == 43 || c == 37) : ((t == 9) ? (c == 48 || c == 51 || c == 53 || c == 54 || c == 56 || c == 57 || c == 67 || c == 69 || c == 70 || c == 72 || c == 73 || c == 74 || c == 87 || c == 89 || c == 90 || c == 46 || c == 32 || c == 42 || c == 36) : ((t == 10) ? (c == 49 || c == 50 || c == 52 || c == 55 || c == 65 || c == 66 || c == 68 || c == 71 || c == 75 || c == 76 || c == 78 || c == 81 || c == 85 || c == 86 || c == 88 || c == 45) : ((t == 11) ? (c == 48 || c == 49 || c == 50 || c == 51 || c == 52 || c == 53 || c == 54 || c == 55 || c == 56 || c == 57 || c == 65 || c == 66 || c == 67 || c == 68 || c == 69 || c == 70 || c == 71 || c == 72 || c == 73 || c == 74 || c == 75 || c == 76 || c == 77 || c == 78 || c == 79 || c == 80 || c == 81 || c == 82 || c == 83 || c == 84 || c == 85 || c == 86 || c == 87 || c == 88 || c == 89 || c == 90 || c == 45 || c == 46 || c == 32 || c == 42 || c == 36 || c == 47 || c == 43 || c == 37) : (false))))))))))))
+// the data character with check value v (inverse of c39Val)
+//@ define c39Chr(v int) int = (v <= 9) ? (v + 48) : ((v <= 35) ? (v + 55) : ((v == 36) ? 45 : ((v == 37) ? 46 : ((v == 38) ? 32 : ((v == 39) ? 36 : ((v == 40) ? 47 : ((v == 41) ? 43 : 37)))))))
+// character k of the symbol for text p: start *, the text, the optional check character, stop *
+//@ define c39Sym(p string, inc bool, k int) int = (k == 0) ? 42 : ((k <= len(p)) ? p[k-1] : ((inc && k == len(p) + 1) ? c39Chr(c39Sum(bytes(p), len(p)) % 43) : 42))
+//@ define c39Len(p string, inc bool) int = len(p) + (inc ? 3 : 2)
+
+// ---- full ASCII mode (ISO/IEC 16388 annex): a character outside 0-9 A-Z space - . is spelled as
+// a shift character ($ % / +) and a letter; exS / exL give the pair of ASCII character c
+//@ define exW(c int) int = (c == 32 || c == 45 || c == 46 || (48 <= c && c <= 57) || (65 <= c && c <= 90)) ? 1 : 2
+//@ define exS(c int) int = (c == 0) ? 37 : ((c <= 26) ? 36 : ((c <= 31) ? 37 : ((c <= 47) ? 47 : ((c == 58) ? 47 : ((c <= 96) ? 37 : ((c <= 122) ? 43 : 37))))))
+//@ define exL(c int) int = (c == 0) ? 85 : ((c <= 26) ? (64 + c) : ((c <= 31) ? (38 + c) : ((c <= 47) ? (32 + c) : ((c == 58) ? 90 : ((c <= 63) ? (11 + c) : ((c == 64) ? 86 : ((c <= 95) ? (c - 16) : ((c == 96) ? 87 : ((c <= 122) ? (c - 32) : (c - 43))))))))))
+//@ specdef exOff(a map[int]int, k int) int = (k <= 0) ? 0 : (exOff(a, k-1) + exW(a[k-1]))
+//@ define allASCII(s string) bool = forall k int :: 0 <= k && k < len(s) ==> s[k] < 128
+
+//@ func prepare
+//@   requires len(content) <= 20000000
+//@   ensures (result1 == nil) == allASCII(content)
+//@   ensures result1 == nil ==> len(result0) == exOff(bytes(content), len(content)) && len(result0) <= 2 * len(content)
+//@   ensures result1 == nil ==> c39Data(result0)
+//@   ensures result1 == nil ==> (forall k int :: 0 <= k && k < len(content) ==> 0 <= exOff(bytes(content), k) && exOff(bytes(content), k) + exW(content[k]) <= len(result0))
+//@   ensures result1 == nil ==> (forall k int :: 0 <= k && k < len(content) && exW(content[k]) == 1 ==> result0[exOff(bytes(content), k)] == content[k])
+//@   ensures result1 == nil ==> (forall k int :: 0 <= k && k < len(content) && exW(content[k]) == 2 ==> result0[exOff(bytes(content), k)] == exS(content[k]) && result0[exOff(bytes(content), k) + 1] == exL(content[k]))
+//@   loop 1 invariant 0 <= iterpos() && iterpos() <= len(content) && len(result) == exOff(bytes(content), iterpos()) && 0 <= len(result) && len(result) <= 2 * iterpos()
+//@   loop 1 invariant forall k int :: 0 <= k && k < iterpos() ==> content[k] < 128
+//@   loop 1 invariant c39Data(result)
+//@   loop 1 invariant forall k int :: 0 <= k && k < iterpos() ==> 0 <= exOff(bytes(content), k) && exOff(bytes(content), k) + exW(content[k]) <= len(result)
+//@   loop 1 invariant forall k int :: 0 <= k && k < iterpos() && exW(content[k]) == 1 ==> result[exOff(bytes(content), k)] == content[k]
+//@   loop 1 invariant forall k int :: 0 <= k && k < iterpos() && exW(content[k]) == 2 ==> result[exOff(bytes(content), k)] == exS(content[k]) && result[exOff(bytes(content), k) + 1] == exL(content[k])
+
+//@ define c39Res(r barcode.BarcodeIntCS) *utils.base1DCodeIntCS = asptr(r, "*utils.base1DCodeIntCS")
+// C07/C10/C11/C14. p is the text that is drawn: the input, or its full-ASCII spelling (prepare).
+// Accepted exactly when the drawn text consists of the 43 data characters (full ASCII: when the
+// input is ASCII). The symbol is * text [check] *, 12 modules per character from the standard's
+// table with narrow gaps; CheckSum() is the modulo-43 value of the drawn text in every mode.
+//@ func EncodeWithColor
+//@   requires len(content) <= 2000000
+//@   ensures !fullASCIIMode && result1 == nil ==> c39Data(content)
+//@   ensures !fullASCIIMode && c39Data(content) ==> result1 == nil
+//@   ensures fullASCIIMode && result1 == nil ==> allASCII(content)
+//@   ensures fullASCIIMode && allASCII(content) ==> result1 == nil
+//@   ensures (result1 == nil) == (result0 != nil)
+//@   ensures result1 == nil ==> typeis(result0, "*utils.base1DCodeIntCS") && c39Res(result0).base1DCode.kind == barcode.TypeCode39 && c39Res(result0).base1DCode.color == color
+//@   ensures result1 == nil && !fullASCIIMode ==> c39Res(result0).base1DCode.content == content
+//@   ensures result1 == nil ==> c39Data(c39Res(result0).base1DCode.content)
+//@   ensures result1 == nil ==> c39Res(result0).checksum == c39Sum(bytes(c39Res(result0).base1DCode.content), len(c39Res(result0).base1DCode.content)) % 43
+//@   ensures result1 == nil ==> c39Res(result0).base1DCode.BitList.count == 13 * c39Len(c39Res(result0).base1DCode.content, includeChecksum) - 1
+//@   ensures result1 == nil ==> (forall k int, t int :: 0 <= k && k < c39Len(c39Res(result0).base1DCode.content, includeChecksum) && 0 <= t && t < 12 ==> c39Res(result0).base1DCode.BitList.model[13*k + t] == c39Bit(c39Sym(c39Res(result0).base1DCode.content, includeChecksum, k), t))
+//@   ensures result1 == nil ==> (forall k int :: 0 <= k && k < c39Len(c39Res(result0).base1DCode.content, includeChecksum) - 1 ==> !c39Res(result0).base1DCode.BitList.model[13*k + 12])
+//@   loop 1 invariant 0 <= iterpos() && iterpos() <= len(data) && result != nil && fresh(result) && len(data) == c39Len(content, includeChecksum) && len(content) <= 4000000
+//@   loop 1 invariant data[0] == 42 && data[len(data)-1] == 42 && (forall k int :: 1 <= k && k <= len(content) ==> data[k] == content[k-1])
+//@   loop 1 invariant includeChecksum && c39Data(content) ==> c39Val(data[len(content)+1]) == c39Sum(bytes(content), len(content)) % 43
+//@   loop 1 invariant includeChecksum && !c39Data(content) ==> data[len(content)+1] == 35
+//@   loop 1 invariant c39Data(content) ==> (forall k int :: 0 <= k && k < len(data) ==> (c39Val(data[k]) >= 0 || data[k] == 42))
+//@   loop 1 invariant forall c int :: (c39Val(c) >= 0 || c == 42) ==> c < 128
+//@   loop 1 invariant forall k int :: 0 <= k && k < iterpos() ==> (c39Val(data[k]) >= 0 || data[k] == 42)
+//@   loop 1 invariant result.count == ((iterpos() == 0) ? 0 : (13 * iterpos() - 1))
+//@   loop 1 invariant forall k int, t int :: 0 <= k && k < iterpos() && 0 <= t && t < 12 ==> result.model[13*k + t] == c39Bit(data[k], t)
+//@   loop 1 invariant forall k int :: 0 <= k && k < iterpos() - 1 ==> !result.model[13*k + 12]
+//@   loop 2 unroll
+
+// the plain variant: the same symbol, black on white
+//@ func Encode
+//@   requires len(content) <= 2000000
+//@   ensures !fullASCIIMode && result1 == nil ==> c39Data(content)
+//@   ensures !fullASCIIMode && c39Data(content) ==> result1 == nil
+//@   ensures fullASCIIMode && result1 == nil ==> allASCII(content)
+//@   ensures fullASCIIMode && allASCII(content) ==> result1 == nil
+//@   ensures (result1 == nil) == (result0 != nil)
+//@   ensures result1 == nil ==> typeis(result0, "*utils.base1DCodeIntCS") && c39Res(result0).base1DCode.kind == barcode.TypeCode39 && c39Res(result0).base1DCode.color == barcode.ColorScheme16
+//@   ensures result1 == nil && !fullASCIIMode ==> c39Res(result0).base1DCode.content == content
+//@   ensures result1 == nil ==> c39Data(c39Res(result0).base1DCode.content)
+//@   ensures result1 == nil ==> c39Res(result0).checksum == c39Sum(bytes(c39Res(result0).base1DCode.content), len(c39Res(result0).base1DCode.content)) % 43
+//@   ensures result1 == nil ==> c39Res(result0).base1DCode.BitList.count == 13 * c39Len(c39Res(result0).base1DCode.content, includeChecksum) - 1
+//@   ensures result1 == nil ==> (forall k int, t int :: 0 <= k && k < c39Len(c39Res(result0).base1DCode.content, includeChecksum) && 0 <= t && t < 12 ==> c39Res(result0).base1DCode.BitList.model[13*k + t] == c39Bit(c39Sym(c39Res(result0).base1DCode.content, includeChecksum, k), t))
+//@   ensures result1 == nil ==> (forall k int :: 0 <= k && k < c39Len(c39Res(result0).base1DCode.content, includeChecksum) - 1 ==> !c39Res(result0).base1DCode.BitList.model[13*k + 12])
